@@ -31,6 +31,7 @@ ENC = "<net::codec::SyncCodec as tokio_util::codec::Encoder<net::codec::Message>
 
 
 EXPLANATION += ' (R3, round 8) a length guard does not discharge a `str` sliced at a byte offset (only a character-boundary / ASCII test does).'
+EXPLANATION += " (R7, round 9) = C03.R4's pinned canonical layout of a signed entry."
 
 
 def _truth(k, v):
